@@ -96,7 +96,7 @@ PROPS = {
         ],
     },
     "C06": {
-        "units": ["prove", "commit", "ctors"],
+        "units": ["prove", "commit", "ctors", "transcripts"],
         "design_ref": "DESIGN.md section 7, C06",
         "technique": "contract-based deductive verification (Verus) of the real prove_with_rng and PedersenGens::commit; iff-contract between Ok and the witness-validity predicate, every `?` exit discharged",
         "claim": "prove_with_rng is proved, for all statements built through the validating constructors and all witnesses built through RangeWitness::init, to return Ok only if "
